@@ -12,7 +12,11 @@
     (the candidate repair).
   * `all_procs.update(parent.all_procs)`: host entries overwrite local ones
     (`Variant.hostOverLocal = true`); the repair merges local over host.
-  * USE: `update` with the used module's public tables (renames via ONLY).
+  * USE: `update` with what `FortranModule.get_used_entities` returns: the used
+    module's public tables themselves (no list), or a fresh dict into which every
+    public entity is filed under `used_names[name]` (ONLY: listed names only) resp.
+    `used_names.get(name, name)` (renames without ONLY: the renamed entity appears
+    under its local name and NOT under its original one).
   * reference slots are looked up either before the nested units are
     correlated (`Phase.early`: parent type, components, bindings, finalisers,
     constructor) or after the functions and subroutines (`Phase.late`:
@@ -53,10 +57,13 @@ structure Slot where
   name : Str
   deriving Repr
 
-/-- `use mod` (only = none) or `use mod, only: loc => rem, ...` -/
+/-- `use mod` (no items), `use mod, loc => rem, ...` (only = false) or
+    `use mod, only: loc => rem, name, ...` (only = true; a plain `name` is the
+    item `(name, name)`).  Items are (local name, name in the module). -/
 structure Use where
   mod : Str
-  only : Option (List (Str × Str))
+  only : Bool
+  items : List (Str × Str)
   deriving Repr
 
 /-- a local declaration that is not itself a nested code unit: derived type,
@@ -105,10 +112,42 @@ structure Tabs where
   t : Table
   deriving Repr
 
-/-- entries a USE statement brings in from one public table -/
-def importTable (pub : Table) : Option (List (Str × Str)) → Table
-  | none => pub
-  | some l => (l.filterMap fun lr => (tget pub (lower lr.2)).map fun e => (lower lr.1, e)).reverse
+/-- `d.get(k)` on a str -> str dict -/
+def sget : List (Str × Str) → Str → Option Str
+  | [], _ => none
+  | (k', v) :: r, k => if k' = k then some v else sget r k
+
+/-- `used_names[remote.lower()] = local.lower()` for every item of the statement, in
+    order (head = most recent write: a later item with the same remote name wins) -/
+def usedNames : List (Str × Str) → List (Str × Str)
+  | [] => []
+  | (loc, rem) :: r => usedNames r ++ [(lower rem, lower loc)]
+
+/-- keys of the dict a write log stands for, in iteration order (= order of first insertion) -/
+def dictKeys : Table → List Str
+  | [] => []
+  | (k, _) :: r => if k ∈ dictKeys r then dictKeys r else dictKeys r ++ [k]
+
+/-- `d.items()` -/
+def dictItems (tb : Table) : List (Str × Ent) :=
+  (dictKeys tb).filterMap fun k => (tget tb k).map fun e => (k, e)
+
+/-- the key under which `used_objects` files the public entity `k` (`none` = not imported):
+    `used_names[name]` if listed; otherwise, without ONLY, `used_names.get(name, name) = name` -/
+def localName (only : Bool) (un : List (Str × Str)) (k : Str) : Option Str :=
+  match sget un k with
+  | some loc => some loc
+  | none => if only then none else some k
+
+/-- `used_objects(object_type, only)`: `result = {}`, then one write per public entity of the
+    module in the iteration order of its dict -/
+def usedObjects (pub : Table) (only : Bool) (un : List (Str × Str)) : Table :=
+  ((dictItems pub).filterMap fun ke => (localName only un ke.1).map fun n => (n, ke.2)).reverse
+
+/-- entries a USE statement brings in from one public table (`get_used_entities`; a statement
+    without items hands out the public dict itself) -/
+def importTable (pub : Table) (u : Use) : Table :=
+  if u.items.isEmpty && !u.only then pub else usedObjects pub u.only (usedNames u.items)
 
 /-- `for mod, extra in self.uses: all_procs.update(procs); ...` -/
 def applyUses (env : ModEnv) : List Use → Tabs → Tabs
@@ -118,7 +157,7 @@ def applyUses (env : ModEnv) : List Use → Tabs → Tabs
     | none => applyUses env us tb
     | some ex =>
       applyUses env us
-        ⟨importTable ex.p u.only ++ tb.p, importTable ex.a u.only ++ tb.a, importTable ex.t u.only ++ tb.t⟩
+        ⟨importTable ex.p u ++ tb.p, importTable ex.a u ++ tb.a, importTable ex.t u ++ tb.t⟩
 
 /-- local declarations of one namespace, most recent first -/
 def declsOf (ns : NS) : List Decl → Table
